@@ -6,7 +6,7 @@
 //   disp <tree> <address hex> <types hex> ...
 //     -> L <events> m=<matches> loc=<loc> | N <events> m=<matches> | R <tid>=<remap>;... T=<ok|DIFF>
 //        L: root dispatch with a location buffer, N: without.  One event per
-//        callback:  <tid>:<idx>@<msg offset>/<obj>/<loc hex or ~>/<d.port is this port>
+//        callback:  <tid>:<idx>@<msg offset>/<obj>/<loc hex or ~>/<d.port is this port>/<L leaf | I inner>
 //        default handler: D<tid>@<msg offset>/<obj>/<loc>
 //        T=ok iff the pos/assoc written in the case line are the library's
 //
@@ -49,7 +49,8 @@ struct Dyn : Ports {
                 [self, id, sub](const char *msg, RtData &d) {
                     std::ostringstream o;
                     o << self->tid << ":" << id << "@" << (msg - g_msg_base) << "/" << (long)(intptr_t)d.obj
-                      << "/" << lochex(d.loc) << "/" << (d.port == &self->ports[id] ? 1 : 0);
+                      << "/" << lochex(d.loc) << "/" << (d.port == &self->ports[id] ? 1 : 0)
+                      << "/" << (self->ports[id].ports ? "I" : "L");
                     g_log->push_back(o.str());
                     if(sub) {
                         long n = 0;
